@@ -20,8 +20,8 @@ ASSUMPTIONS = ['basic lexer is compared on prefix-free fixed-string terminals on
                'reference recogniser (vlib/gram.py Ref) is the trusted base; it is cross-checked against the derivation enumerator (accepted <=> at least one derivation)']
 
 FAMILIES = {
-    'tok': (gramgen.Opts(terms='tok', max_rules=5, templates=True), ('basic', 'dynamic', 'dynamic_complete')),
-    'ovl': (gramgen.Opts(terms='ovl', max_rules=4), ('dynamic', 'dynamic_complete')),
+    'tok': (gramgen.Opts(terms='tok', max_rules=5, templates=True, ignore_in_rules=True), ('basic', 'dynamic', 'dynamic_complete')),
+    'ovl': (gramgen.Opts(terms='ovl', max_rules=4, ignore_in_rules=True), ('dynamic', 'dynamic_complete')),
     're': (gramgen.Opts(terms='re', max_rules=4, anon_re=True), ('dynamic', 'dynamic_complete')),
 }
 MODE = {'basic': 'exact', 'dynamic': 'longest', 'dynamic_complete': 'exact'}
@@ -86,12 +86,27 @@ def build(gtext, lexer, case):
         raise Violation('construction raised %s' % type(e).__name__, grammar=gtext, lexer=lexer, error=str(e)[:400])
 
 
+def _uses_terminal(g, names):
+    def u(item):
+        k = item[0]
+        if k == 't': return item[1] in names
+        if k in ('grp', 'maybe'): return any(u(i) for a in item[1] for i in a)
+        if k in ('opt', 'star', 'plus', 'rep'): return u(item[1])
+        if k == 'tmpl': return any(u(a) for a in item[2])
+        return False
+    return any(u(i) for r in g['rules'] for a in r['alts'] for i in a['items'])
+
+
 def check(case, ctx):
     g = case['g']; fam = case['family']
     gtext = gram.render_grammar(g)
     info = gram.analyse(g)
     conc = info['concrete']
     lexers = FAMILIES[fam][1]
+    if g['ignore'] and 'basic' in lexers and _uses_terminal(g, set(g['ignore'])):
+        # a rule references an %ignore'd terminal: the basic lexer drops every occurrence of it (as documented for %ignore), so such a
+        # rule is dead there; the dynamic lexers do match the terminal when a rule asks for it, and only they are judged
+        lexers = tuple(l for l in lexers if l != 'basic'); ctx.label('basic:skipped (ignored terminal used by a rule)')
     parsers = {}
     for lx in lexers:
         p = build(gtext, lx, case)
